@@ -238,7 +238,13 @@ func runFetch(tb ev.TB, c fetchCase) (labels []string, ok bool) {
 					return nil, false
 				}
 				if d := diffRecord(got[i], w, true); d != "" {
-					fail(sigFor(d, "client", units), "Client.Fetch(offset %d), record #%d: %s", next, i, d)
+					sig := sigFor(d, "client", units)
+					if isControlRecord(c.Layout.Batches, got[i].Offset) {
+						sig = "c05/control-batch-surfaced"
+					} else if isRecordOfBad(units, got[i], c.Layout.Batches) {
+						sig = "c05/crc-mismatch-surfaced"
+					}
+					fail(sig, "Client.Fetch(offset %d), record #%d: %s", next, i, d)
 					return nil, false
 				}
 			}
